@@ -31,14 +31,24 @@
      other (explicit) directive names the same link.  Partial: the "exactly when"
      direction (no link without source) and wrong-target pre-existing links are the
      known finding `export-entry-foreign-or-stale`.
+  5. `links_after_mount_chain`: the same composed through the whole `mountCmd`: mount phase
+     (name test, base chain, makedirs and mountOne of every chain layer) then the link pass
+     over the chain (fix d8f34a4).  After a normal non-pretend return, for EVERY layer of the
+     chain root→…→name every automatic export entry whose source exists when the link pass
+     begins — in particular if it existed before the command (`links_after_mount_chain_initial`)
+     — is a symbolic link.  No hypothesis about the layout is needed.
+     `links_after_mount_chain_target_partial`: it points at the layer's directory if the link
+     path was free when the pass began and no directive of a chain layer names it with another
+     source (that hypothesis is about the configuration; the code does not establish it).
 -/
 import Lc.Lemmas.ExportLinks
 import Lc.Lemmas.ExportPath
+import Lc.Lemmas.MountLinks
 
 set_option mvcgen.warning false
 
 namespace Lc.Props.C16
-open Lc Lc.Layers Lc.Hoare Lc.ExportFs Lc.ExportLinks
+open Lc Lc.Layers Lc.Hoare Lc.ExportFs Lc.ExportLinks Lc.MountLinks Lc.MountTrace
 
 /-! ### a concrete instance for the non-vacuity examples -/
 
@@ -392,5 +402,183 @@ example : wFresh.pretend = false ∧ ((makeExportSymlinks cfgX lX).run.run wFres
     Fs.lexists wFresh.fs b!"/lc/layers/base/packages" = true ∧ Fs.lexists wFresh.fs pkgLink = false ∧
     (∀ e ∈ exportPairs cfgX lX, e.1 = pkgLink → e.2 = b!"/lc/layers/base/packages") := by
   exact ⟨rfl, isOk_unit _ (by decide), by decide, by decide, by decide, by decide⟩
+
+/-! ### 5. links after mount, composed through `mountCmd` -/
+
+/-- what the composition lemma `mountCmd_links` gives, with the layers of the chain as the
+    caller's `Defs` has them (the mount phase changes neither names, directories nor export
+    directives: `SamePaths`) -/
+theorem mountCmd_links_chain (cfg : Config) (d : Defs) (name : Bytes) (w0 : World) (hp : w0.pretend = false)
+    (d' : Defs) (hok : ((mountCmd cfg d name).run.run w0).1 = .ok d') :
+    ∃ chain wm, BaseChain d chain name ∧ (mountPhase cfg d name).run.run w0 = (.ok (chain, d'), wm) ∧
+      Added [] w0.fs wm.fs ∧
+      Added (chain.flatMap (exportPairs cfg)) wm.fs ((mountCmd cfg d name).run.run w0).2.fs ∧
+      ∀ a ∈ chain, ∀ e ∈ autoExportPaths cfg a, Fs.lexists wm.fs e.2 = true →
+        Fs.isSymlink ((mountCmd cfg d name).run.run w0).2.fs e.1 = true := by
+  obtain ⟨chain, wm, hph, hbc, hsp, hgrow, hadd, hlinks⟩ := mountCmd_links cfg d name w0 hp d' hok
+  have hsame : ∀ a ∈ chain, ∀ k, findLayer d' a.name = some k →
+      autoExportPaths cfg k = autoExportPaths cfg a ∧ exportPairs cfg k = exportPairs cfg a := by
+    intro a ha k hk
+    obtain ⟨l, hl, e1, e2, e3⟩ := hsp a.name k hk
+    rw [MountLinks.BaseChain.mem_find hbc a ha] at hl
+    cases hl
+    exact exportPairs_congr cfg a k e1 e2 e3
+  refine ⟨chain, wm, hbc, hph, hgrow, ?_, ?_⟩
+  · apply hadd.mono
+    intro e he
+    unfold chainPairs at he
+    obtain ⟨a, ha, hea⟩ := List.mem_flatMap.mp he
+    cases hk : findLayer d' a.name with
+    | none => rw [hk] at hea; cases hea
+    | some k =>
+      rw [hk] at hea
+      change e ∈ exportPairs cfg k at hea
+      rw [(hsame a ha k hk).2] at hea
+      exact List.mem_flatMap.mpr ⟨a, ha, hea⟩
+  · intro a ha e he hsrc
+    obtain ⟨k, hk, hl⟩ := hlinks a ha
+    rw [← (hsame a ha k hk).1] at he
+    exact hl e he hsrc
+
+/-- **links_after_mount_chain** (GOAL B): after a successful non-pretend `mountCmd cfg d name`
+    (a normal return excludes a fired fault), let `chain` be the base chain root→…→name
+    (`BaseChain`, unique) and `wm` the world in which the link pass begins, i.e. the world the
+    mount phase `mountPhase` (name test, chain, `makedirs` and `mountOne` of every chain layer)
+    ends in.  Then for EVERY layer `a` of the chain and every automatic export entry
+    `(mnt, src) ∈ autoExportPaths cfg a` whose source exists in `wm`, `mnt` is a symbolic link in
+    the final world.  `wm`'s tree is the initial tree plus directories (`Added []`), so sources
+    created by the mount phase itself (`mountOne` makes missing import sources inside the
+    layer tree — the reason for fix d8f34a4) count.  No hypothesis about the layout. -/
+theorem links_after_mount_chain (cfg : Config) (d : Defs) (name : Bytes) (w0 : World) (hp : w0.pretend = false)
+    (d' : Defs) (hok : ((mountCmd cfg d name).run.run w0).1 = .ok d')
+    (chain : List Layer) (hchain : BaseChain d chain name) :
+    ∃ wm, (mountPhase cfg d name).run.run w0 = (.ok (chain, d'), wm) ∧ Added [] w0.fs wm.fs ∧
+      ∀ a ∈ chain, ∀ mnt src, (mnt, src) ∈ autoExportPaths cfg a → Fs.lexists wm.fs src = true →
+        Fs.isSymlink ((mountCmd cfg d name).run.run w0).2.fs mnt = true := by
+  obtain ⟨chain', wm, hbc, hph, hgrow, _, hlinks⟩ := mountCmd_links_chain cfg d name w0 hp d' hok
+  have := MountLinks.BaseChain.unique hbc hchain
+  subst this
+  exact ⟨wm, hph, hgrow, fun a ha mnt src he hsrc => hlinks a ha (mnt, src) he hsrc⟩
+
+/-- … in particular for every source directory that existed BEFORE the command -/
+theorem links_after_mount_chain_initial (cfg : Config) (d : Defs) (name : Bytes) (w0 : World)
+    (hp : w0.pretend = false) (d' : Defs) (hok : ((mountCmd cfg d name).run.run w0).1 = .ok d')
+    (chain : List Layer) (hchain : BaseChain d chain name) (a : Layer) (ha : a ∈ chain) (mnt src : Bytes)
+    (hmem : (mnt, src) ∈ autoExportPaths cfg a) (hsrc : Fs.lexists w0.fs src = true) :
+    Fs.isSymlink ((mountCmd cfg d name).run.run w0).2.fs mnt = true := by
+  obtain ⟨wm, _, hgrow, hlinks⟩ := links_after_mount_chain cfg d name w0 hp d' hok chain hchain
+  exact hlinks a ha mnt src hmem (hgrow.lexists src hsrc)
+
+/-- **the link points at the layer's directory** when the link path was free as the link pass
+    began and every directive of a chain layer (explicit `export` lines and the automatic
+    entries) that names this link path has this source.  Partial: the second hypothesis is about
+    the configuration — two directives may name one link path with different sources, then the
+    first one made wins — and the code does not establish it; an entry that was already there
+    is left as it is (finding `export-entry-foreign-or-stale`). -/
+theorem links_after_mount_chain_target_partial (cfg : Config) (d : Defs) (name : Bytes) (w0 : World)
+    (hp : w0.pretend = false) (d' : Defs) (hok : ((mountCmd cfg d name).run.run w0).1 = .ok d')
+    (chain : List Layer) (hchain : BaseChain d chain name) :
+    ∃ wm, (mountPhase cfg d name).run.run w0 = (.ok (chain, d'), wm) ∧ Added [] w0.fs wm.fs ∧
+      ∀ a ∈ chain, ∀ mnt src, (mnt, src) ∈ autoExportPaths cfg a → Fs.lexists wm.fs src = true →
+        Fs.lexists wm.fs mnt = false →
+        (∀ b ∈ chain, ∀ e ∈ exportPairs cfg b, e.1 = mnt → e.2 = src) →
+        Fs.get ((mountCmd cfg d name).run.run w0).2.fs mnt = some (.symlink src) := by
+  obtain ⟨chain', wm, hbc, hph, hgrow, hadd, hlinks⟩ := mountCmd_links_chain cfg d name w0 hp d' hok
+  have := MountLinks.BaseChain.unique hbc hchain
+  subst this
+  refine ⟨wm, hph, hgrow, fun a ha mnt src he hsrc hfree huniq => ?_⟩
+  have hs := hlinks a ha (mnt, src) he hsrc
+  obtain ⟨t, ht⟩ := (isSymlink_iff _ _).mp hs
+  rcases hadd mnt with h3 | ⟨_, h3 | ⟨e, he', h4, h5⟩⟩
+  · rw [(lexists_false_iff _ _).mp hfree] at h3
+    rw [h3] at ht; cases ht
+  · rw [h3] at ht; cases ht
+  · obtain ⟨b, hb, heb⟩ := List.mem_flatMap.mp he'
+    rw [h5, huniq b hb e heb h4]
+
+/-- nothing that existed before the command is removed or replaced by it (any exit of the
+    mount phase and the link pass is covered by `Added`; stated here for the normal return) -/
+theorem mount_chain_keeps_entries (cfg : Config) (d : Defs) (name : Bytes) (w0 : World)
+    (hp : w0.pretend = false) (d' : Defs) (hok : ((mountCmd cfg d name).run.run w0).1 = .ok d')
+    (q : Bytes) (n : Fs.Node) (hq : Fs.get w0.fs q = some n) :
+    Fs.get ((mountCmd cfg d name).run.run w0).2.fs q = some n := by
+  obtain ⟨_, wm, _, _, hgrow, hadd, _⟩ := mountCmd_links_chain cfg d name w0 hp d' hok
+  exact hadd.keeps q n (hgrow.keeps q n hq)
+
+/-! non-vacuity of section 5.  The model's `mountOne` re-probes the kernel table through the
+    mountinfo text (`toString` of the mount ids), which `decide` cannot evaluate once something
+    is mounted; so the whole command is evaluated on a base layer without imports (nothing gets
+    mounted, the chain has one layer), and the multi-layer composition on the link pass alone. -/
+
+def lB : Layer := { name := b!"base", layerPath := b!"/lc/layers/base", state := S_mountable }
+def dB : Defs := { layers := [lB], order := [b!"base"] }
+
+theorem ex_chainB : BaseChain dB [lB] b!"base" := by
+  have h := BaseChain.snoc (d := dB) (c := []) (l := lB) (n := b!"base") rfl (by decide) (BaseChain.nil rfl)
+  simpa using h
+
+set_option maxRecDepth 8000 in
+/-- the hypotheses of `links_after_mount_chain(_initial)` hold: the command returns normally
+    from the fresh world, whose tree has both source directories and no export tree -/
+theorem ex_mountB_ok : ∃ d', ((mountCmd cfgX dB b!"base").run.run wFresh).1 = .ok d' :=
+  isOk_ex _ (by decide +kernel)
+
+example : wFresh.pretend = false ∧ (pkgLink, b!"/lc/layers/base/packages") ∈ autoExportPaths cfgX lB ∧
+    Fs.lexists wFresh.fs b!"/lc/layers/base/packages" = true ∧ Fs.lexists wFresh.fs pkgLink = false := by
+  decide
+
+/-- the conclusion is not trivial: the link was not there, and by the theorem it is after the command -/
+example : Fs.isSymlink ((mountCmd cfgX dB b!"base").run.run wFresh).2.fs pkgLink = true := by
+  obtain ⟨d', hok⟩ := ex_mountB_ok
+  exact links_after_mount_chain_initial cfgX dB b!"base" wFresh rfl d' hok [lB] ex_chainB lB (by simp)
+    pkgLink b!"/lc/layers/base/packages" (by decide) (by decide)
+
+set_option maxRecDepth 8000 in
+/-- cross-check by evaluating the model: the link is there and points at the layer's directory
+    (what `links_after_mount_chain_target_partial` says for a free path) -/
+example : Fs.get ((mountCmd cfgX dB b!"base").run.run wFresh).2.fs pkgLink =
+    some (.symlink b!"/lc/layers/base/packages") := by decide +kernel
+
+/-- two layers: `dev` sits on `base`; `dev` has a packages directory but no generated directory -/
+def lD : Layer := { name := b!"dev", base := b!"base", layerPath := b!"/lc/layers/dev", state := S_mounted }
+def dBD : Defs := { layers := [lB, lD], order := [b!"base", b!"dev"] }
+def wTwo : World :=
+  { fs := wFresh.fs ++ [(b!"/lc/layers/dev", .dir), (b!"/lc/layers/dev/packages", .dir)] }
+
+example : BaseChain dBD [lB, lD] b!"dev" := by
+  have h1 : BaseChain dBD [lB] b!"base" := by
+    have h := BaseChain.snoc (d := dBD) (c := []) (l := lB) (n := b!"base") rfl (by decide) (BaseChain.nil rfl)
+    simpa using h
+  have h := BaseChain.snoc (d := dBD) (c := [lB]) (l := lD) (n := b!"dev") rfl (by decide) h1
+  simpa using h
+
+set_option maxRecDepth 8000 in
+/-- the link pass over the chain returns normally … -/
+theorem ex_linkTwo_ok : ((linkChain cfgX dBD [lB, lD]).run.run wTwo).1 = .ok PUnit.unit := by
+  cases h : ((linkChain cfgX dBD [lB, lD]).run.run wTwo).1 with
+  | ok u => rfl
+  | error e =>
+    have : isOk ((linkChain cfgX dBD [lB, lD]).run.run wTwo).1 = true := by decide +kernel
+    rw [h] at this
+    cases this
+
+/-- … and by `linkChain_run` every automatic entry of BOTH layers whose source exists is a link:
+    three links (the ancestor's two and the packages link of `dev`) -/
+example : ∀ a ∈ [lB, lD], ∃ k, findLayer dBD a.name = some k ∧ ∀ e ∈ autoExportPaths cfgX k,
+    Fs.lexists wTwo.fs e.2 = true →
+      Fs.isSymlink ((linkChain cfgX dBD [lB, lD]).run.run wTwo).2.fs e.1 = true :=
+  (linkChain_run cfgX dBD [lB, lD] wTwo rfl PUnit.unit ex_linkTwo_ok).2.2
+
+example : Fs.lexists wTwo.fs b!"/lc/layers/dev/packages" = true ∧
+    Fs.lexists wTwo.fs b!"/lc/layers/dev/generated" = false ∧
+    (b!"/lc/export/packages/dev", b!"/lc/layers/dev/packages") ∈ autoExportPaths cfgX lD := by decide
+
+set_option maxRecDepth 8000 in
+/-- cross-check by evaluating the model: `dev`'s packages link points at its directory, and no
+    link was made for its missing generated directory -/
+example : Fs.get ((linkChain cfgX dBD [lB, lD]).run.run wTwo).2.fs b!"/lc/export/packages/dev" =
+      some (.symlink b!"/lc/layers/dev/packages") ∧
+    Fs.get ((linkChain cfgX dBD [lB, lD]).run.run wTwo).2.fs b!"/lc/export/generated/dev" = none := by
+  decide +kernel
 
 end Lc.Props.C16
